@@ -45,6 +45,9 @@ class StateView:
         self.exc = exc
         self.entry = None
 
+    def view(self, value, new=False):
+        return to_spec(self.ctx, self.l._heap, value)
+
 
 class Frame:
     def __init__(self, fi, module, cls, locals_, con=None, closure=None):
@@ -1679,6 +1682,11 @@ class ContractView:
         self.trace = ctx.trace
         self.what = ''
         self.concrete = False
+
+    def view(self, value, new=False):
+        """spec view of a raw value (e.g. an object kept in ghost state) in the pre (default) or post state"""
+        lv = self.new if new else self.old
+        return to_spec(self.ctx, lv._heap, value)
 
     def draw(self, ty, hint):
         """A fresh value of the given type (existential witness of an assumed contract)."""
